@@ -32,6 +32,8 @@ func c02Pool() []poolVal {
 		{`""`, "str-empty-lit", ""}, {`("" + "")`, "str-empty-cat", ""},
 		{`"a"`, "str-lit", ""}, {`("" + "a")`, "str-cat", ""}, {`"abc"`, "str-lit", ""}, {`("ab" + "c")`, "str-cat", ""},
 		{`"5"`, "str-numeric-lit", ""}, {`("" + "5")`, "str-numeric-cat", ""}, {`"০৫"`, "str-numeric-bn", ""}, {`"a b"`, "str-lit", ""},
+		// text that merely starts like a number is not a number
+		{`"16cm"`, "str-numeric-prefix", ""}, {"\"\u09eb \u099f\u09be\u0995\u09be\"", "str-numeric-prefix", ""}, {`("3" + " kg")`, "str-numeric-prefix", ""}, {`"-2px"`, "str-numeric-prefix", ""},
 		// canonically equivalent but differently spelled strings are different strings
 		{"\"\u09df\"", "str-nfc-composed", ""}, {"\"\u09af\u09bc\"", "str-nfc-decomposed", ""}, {"\"\u00e9\"", "str-nfc-composed", ""}, {"(\"e\" + \"\u0301\")", "str-nfc-decomposed", ""},
 		{`("" + 5)`, "str-from-number", ""}, {`("" + 0)`, "str-from-number", ""}, {`(5 + "")`, "str-from-number", ""},
@@ -94,7 +96,7 @@ func c02Run(c *Ctx) {
 		}
 	}
 	// 2b. the same operators applied directly to literal operands (no variable in between)
-	lits := []string{"nil", True(), False(), "0", "1", "0.5", "63", "64", "3", `""`, `"a"`, `"5"`, `"\u09e6\u09eb"`, `"a b"`, "[]", "[1]", "{}", "{k: 1}", "9223372036854775808", B["len"]}
+	lits := []string{"nil", True(), False(), "0", "1", "0.5", "63", "64", "3", `""`, `"a"`, `"5"`, `"\u09e6\u09eb"`, `"a b"`, `"16cm"`, `"0 km"`, "[]", "[1]", "{}", "{k: 1}", "9223372036854775808", B["len"]}
 	for _, a := range lits {
 		for _, op := range c02UnOps {
 			if c.Mine() {
